@@ -188,12 +188,12 @@ fn decode_mut_case(u: &mut U) -> MutCase {
 }
 
 fn decode_split_case(u: &mut U) -> SplitCase {
-    let block_pages = match u.u8() % 6 {
-        0 => 4,
-        1 => 8,
-        2 => 16,
-        3 => 180,
-        4 => 360,
+    let block_pages = match u.u8() % 8 {
+        0 | 1 => 4,
+        2 | 3 => 8,
+        4 => 16,
+        5 => 180,
+        6 => 360,
         _ => 3 + (u.u8() as usize % 30),
     };
     let index_pages = 1 + (u.u8() as usize % 2);
@@ -361,6 +361,9 @@ pub fn campaign(check: &Check, target: &str, runs: u64, max_len: usize) {
             // the sanitizer runtime reserves terabytes of address space: lift run.sh's (soft) limit for this child
             .arg("ulimit -S -v unlimited 2>/dev/null; exec \"$0\" \"$@\"")
             .arg(&bin)
+            // decoders ask the allocator for implausible sizes on purpose (try_reserve) and turn the refusal into an
+            // error: the sanitizer must return null for those instead of aborting
+            .env("ASAN_OPTIONS", "allocator_may_return_null=1:detect_odr_violation=0:max_allocation_size_mb=2048")
             .arg(&corpus)
             .arg(seed_dir(target))
             .arg(format!("-runs={per_job}"))
